@@ -16,7 +16,7 @@ class C07(Check):
             "schedule seed/policy, worker count, enumeration permutation and hash seed; non-trivial = first run changed a file; "
             "distinct = by experiment digest")
     assumptions = ["one re-run (the statement is about one)"]
-    budgets = {"quick": {"n": 70, "wall": 170}, "thorough": {"n": 1300, "wall": 1500}}
+    budgets = {"quick": {"n": 70, "wall": 170}, "thorough": {"n": 1700, "wall": 1700}}
 
     def gen(self, rng, i, tier):
         exp = G.gen_general(rng, max_codemods=rng.choice([1, 1, 2, 3]))
@@ -28,6 +28,17 @@ class C07(Check):
                 files = [{"path": path, "snippets": [r["idx"]], "layout": {}}] + G.gen_manifests(rng, k=rng.choice([0, 0, 1]))
                 exp = {"kind": "corpus-walk", "world_spec": {"files": files}, "include": [r["codemod"]], "plugins": False,
                        "path_include": None, "extra_findings": {}}
+        if tier == "thorough" and 1203 <= i < 1203 + 3 * 101:
+            # every codemod with two of its own trigger snippets in ONE file (several sites per file)
+            j = i - 1203
+            cid = G.codemods()[j % 101]["id"]
+            cands = [r for r in W.triggering(cid) if G.is_plain_snippet(r)]
+            if cands:
+                a, b = rng.choice(cands), rng.choice(cands)
+                lay = {} if G.info(cid)["origin"] == "pixee" else None
+                if lay is not None:
+                    exp = {"kind": "two-sites", "world_spec": {"files": [{"path": "pkg/two.py", "snippets": [a["idx"], b["idx"]], "layout": {}}]},
+                           "include": [cid], "plugins": False, "path_include": None, "extra_findings": {}}
         if not exp["world_spec"]["files"] or not exp["include"]:
             return None
         n = len(exp["world_spec"]["files"])
